@@ -105,7 +105,34 @@ let () =
       Buffer.add_string buf (" st=" ^ state_name !a.a_core.a_state ^ " fail=" ^ dec_of_n !a.a_core.a_failures
                              ^ " mech=" ^ (match !a.a_core.a_mech with None -> "-" | Some EXTERNAL -> "E" | Some COOKIE_SHA1 -> "C" | Some ANONYMOUS -> "A"));
       if !fuel_out then "?out-of-fuel" else Buffer.contents buf);
-  reg "sha1m" (fun [h] -> hex_of_bytes (hex_encode (sha1 (bytes_of_hex h))));
+  (* specm <env> lines=<hex>/<hex>/_ ...  ->  per line the response kinds the SPECIFICATION prescribes, then the final phase *)
+  reg "specm" (fun toks ->
+      let e = env_of_toks toks in
+      let buf = Buffer.create 256 in
+      let sp = ref spec_init in
+      let kind_str = function
+        | K_Rejected -> "R" | K_Ok -> "O" | K_Error -> "E" | K_Data d -> "D" ^ hex_of_bytes d | K_AgreeFd -> "A" in
+      let oddhex = ref 0 in
+      let stop = ref (-1) and idx = ref 0 in
+      List.iter (fun h ->
+          let line = if h = "_" then [] else bytes_of_hex h in
+          let ended = (match !sp.sp_phase with SP_Authenticated _ | SP_Disconnect -> true | _ -> false) in
+          (if not ended then
+             let ha = hexarg_of line in
+             if List.length ha mod 2 = 1 && unhex (ha @ [n_of_int 48]) <> None then incr oddhex);
+          let (sp', ks) = spec_step e !sp line in
+          sp := sp';
+          (if not ended && !stop < 0 then
+             match sp'.sp_phase with SP_Authenticated _ | SP_Disconnect -> stop := !idx | _ -> ());
+          incr idx;
+          Buffer.add_string buf ((if ks = [] then "-" else String.concat "," (List.map kind_str ks)) ^ " "))
+        (split_on '/' (field toks "lines"));
+      let ph = match !sp.sp_phase with
+        | SP_WaitingForAuth -> "WaitingForAuth" | SP_WaitingForData_External -> "WaitingForData" | SP_WaitingForData_Cookie _ -> "WaitingForData"
+        | SP_WaitingForBegin _ -> "WaitingForBegin" | SP_Authenticated w -> "Authenticated:" ^ creds_str w | SP_Disconnect -> "Disconnect" in
+      Buffer.add_string buf ("end " ^ ph ^ " rej=" ^ dec_of_n !sp.sp_rejects ^ " fd=" ^ (if !sp.sp_fd then "1" else "0") ^ " oddhex=" ^ string_of_int !oddhex ^ " stop=" ^ string_of_int !stop);
+      Buffer.contents buf);
+  reg "sha1m" (fun [h] -> String.concat "" (List.map (fun b -> String.make 1 (Char.chr (int_of_n b))) (hex_encode (sha1 (bytes_of_hex h)))));
   reg "hexdecm" (fun [h] -> let (d, e) = hex_decode (bytes_of_hex h) in string_of_int (int_of_n e) ^ " " ^ hex_of_bytes d);
   reg "uidstrm" (fun [h] -> match parse_ulong (bytes_of_hex h) with
       | None -> "-" | Some u -> (match uid_of_ulong u with None -> "unset" | Some v -> dec_of_n v))
